@@ -1,3 +1,5 @@
 #!/usr/bin/env bash
 set -eu
-exec bin/buildcoop.sh c06 "${VERIF_OUT:-build/bin/c06}"
+out="${VERIF_OUT:-build/bin/c06}"
+go build -tags verif -overlay "$VERIF_OVERLAY" -o "$out" ./cmd/c06
+exec bin/buildcoop.sh c06 "$out-coop"
